@@ -244,8 +244,11 @@ struct px_sink {
     struct uref *held[8];   /* holding mode: buffers kept instead of freed */
     int nheld;
     bool hold;
+    bool defer_provide; /* keep uref_mgr / uclock / ubuf_mgr requests and answer them only when px_provide_pending() is
+                         * called (a provider further down a queue or in another thread answers later, not inside register) */
     /* requests currently lodged here */
     struct urequest *reqs[16];
+    bool answered[16];
     int nreqs;
     int unreg_unknown;
 };
@@ -417,6 +420,13 @@ static int px_sink_control(struct upipe *upipe, int command, va_list args)
             struct uref *ff = req->uref ? uref_dup(req->uref) : NULL;
             return urequest_provide_ubuf_mgr(req, ubuf_mgr_use(fx->ubuf_mgr), ff);
         }
+        if (s->defer_provide && (req->type == UREQUEST_UREF_MGR || req->type == UREQUEST_UCLOCK || req->type == UREQUEST_UBUF_MGR)) {
+            if (s->nreqs < 16) {
+                s->answered[s->nreqs] = false;
+                s->reqs[s->nreqs++] = req;
+            }
+            return UBASE_ERR_NONE;
+        }
         if (s->unhandled_requests) {
             r->result = UBASE_ERR_UNHANDLED;
             return UBASE_ERR_UNHANDLED;
@@ -430,7 +440,7 @@ static int px_sink_control(struct upipe *upipe, int command, va_list args)
         struct px_srec *r = px_slog(fx, s->idx, PXS_UNREGISTER);
         r->req = req;
         r->req_type = req->type;
-        bool mine = s->sync_provide && (req->type == UREQUEST_UREF_MGR || req->type == UREQUEST_UCLOCK || req->type == UREQUEST_UBUF_MGR);
+        bool mine = (s->sync_provide || s->defer_provide) && (req->type == UREQUEST_UREF_MGR || req->type == UREQUEST_UCLOCK || req->type == UREQUEST_UBUF_MGR);
         if (s->unhandled_requests && !mine) {
             r->result = UBASE_ERR_UNHANDLED;
             return UBASE_ERR_UNHANDLED;
@@ -444,7 +454,9 @@ static int px_sink_control(struct upipe *upipe, int command, va_list args)
             r->result = UBASE_ERR_INVALID;
             return UBASE_ERR_INVALID;
         }
-        s->reqs[i] = s->reqs[--s->nreqs];
+        --s->nreqs;
+        s->reqs[i] = s->reqs[s->nreqs];
+        s->answered[i] = s->answered[s->nreqs];
         return UBASE_ERR_NONE;
     }
     default: {
@@ -453,6 +465,48 @@ static int px_sink_control(struct upipe *upipe, int command, va_list args)
         return UBASE_ERR_UNHANDLED;
     }
     }
+}
+
+/* deferred providers: number of lodged requests not answered yet */
+static inline int px_pending_requests(struct px_fix *fx)
+{
+    int n = 0;
+    for (int k = 0; k < PX_NSINKS; k++)
+        for (int i = 0; i < fx->sinks[k].nreqs; i++)
+            if (fx->sinks[k].defer_provide && !fx->sinks[k].answered[i])
+                n++;
+    return n;
+}
+
+/* deferred providers: answer every lodged, not yet answered request with the fixture's shared managers. The callback may
+ * register or withdraw requests (also this one): the list is re-scanned after every answer. Returns the number of answers. */
+static inline int px_provide_pending(struct px_fix *fx)
+{
+    int n = 0;
+    for (int guard = 0; guard < 64; guard++) {
+        struct px_sink *s = NULL;
+        int i = 0;
+        for (int k = 0; k < PX_NSINKS && s == NULL; k++)
+            for (i = 0; i < fx->sinks[k].nreqs; i++)
+                if (fx->sinks[k].defer_provide && !fx->sinks[k].answered[i]) {
+                    s = &fx->sinks[k];
+                    break;
+                }
+        if (s == NULL)
+            break;
+        struct urequest *req = s->reqs[i];
+        s->answered[i] = true;
+        n++;
+        if (req->type == UREQUEST_UREF_MGR)
+            urequest_provide_uref_mgr(req, uref_mgr_use(fx->uref_mgr));
+        else if (req->type == UREQUEST_UCLOCK)
+            urequest_provide_uclock(req, uclock_use(&fx->clock.uclock));
+        else {
+            struct uref *ff = req->uref ? uref_dup(req->uref) : NULL;
+            urequest_provide_ubuf_mgr(req, ubuf_mgr_use(fx->ubuf_mgr), ff);
+        }
+    }
+    return n;
 }
 
 static void px_sink_dead(struct urefcount *urefcount)
